@@ -31,6 +31,8 @@ CONSTANTS CHMOD,        \* 2^(width of CurrHF); writes to the field truncate (co
                         \*       model (a fresh hop field); FALSE: pinned (the view keeps whatever flags were there)
           FIXOHSEC,     \* TRUE: OneHopPath::set_second_hop copies ExpTime from the first hop like the view
                         \*       (and SCION routers) do; FALSE: pinned (model writes ExpTime 0)
+          PEERIMPL,     \* TRUE: SCION's peering rule (reference); FALSE: the code, which ignores the
+                        \*       PEERING flag of the info field in advance_ingress / advance_egress
           XorAcc(_, _)  \* accumulator step
 
 MAXSEGHOPS == 63
@@ -175,6 +177,19 @@ OneHopSetSecondModel(o, ifin, key, adv) ==
 OneHopFirstEgress(o) == TravelEg(o.h1, o.inf)
 OneHopLastIngress(o) == TravelIn(o.h2, o.inf)
 
+(* ---- peering (SCION data plane; scionproto router determinePeer) --------------------------- *)
+(* A peering path has exactly two segments, both with the P flag; the LAST hop field of the first *)
+(* and the FIRST hop field of the second segment are peer hop fields, owned by the two ASes on    *)
+(* either side of the peering link (no crossover AS).  A peer hop field is MACed under the        *)
+(* accumulator AFTER the AS's regular hop field (beta_{i+1}); at a peer hop field the SegID is    *)
+(* not updated, and the segment change happens at egress (CurrHF and CurrINF move together).     *)
+IsPeer(i) == IF "peer" \in DOMAIN i THEN i.peer ELSE FALSE
+PeerHere(p, si) ==
+  /\ PEERIMPL
+  /\ p.ci < Len(p.inf) /\ IsPeer(p.inf[p.ci + 1])
+  /\ p.sl[3] = 0
+  /\ ((p.ci = 0 /\ si.end) \/ (p.ci = 1 /\ si.start))
+
 (* ---- advance (routing.rs) --------------------------------------------------- *)
 (* v = [cur, seg, nxt]: verdicts of the validator (TRUE = accepts) for           *)
 (* validate_hop(current), validate_segment_change, validate_hop(next).           *)
@@ -189,14 +204,15 @@ Ingress(p, internal, VH(_, _, _, _, _), VS(_)) ==
       si == SegIndex(p.sl, h)
       tot == Total(p.sl) IN
   IF si = NoSeg THEN ErrRes(p, "hop_oob")
-  ELSE IF si.start /\ si.end THEN ErrRes(p, "single_hop_segment")
+  ELSE IF si.start /\ si.end /\ ~(si.seg = p.ci /\ PeerHere(p, si)) THEN ErrRes(p, "single_hop_segment")
   ELSE IF si.seg # p.ci THEN ErrRes(p, "segment_mismatch")
   ELSE IF p.ci >= NInf(p.sl) THEN ErrRes(p, "info_oob")
   ELSE
     LET final == h + 1 >= tot
+        pk == PeerHere(p, si)
         inf == p.inf[p.ci + 1]
         hop == p.hop[h + 1]
-        inf1 == IF ~internal /\ ~inf.cd THEN [inf EXCEPT !.sid = XorAcc(@, hop.mac)] ELSE inf
+        inf1 == IF ~internal /\ ~inf.cd /\ ~pk THEN [inf EXCEPT !.sid = XorAcc(@, hop.mac)] ELSE inf
         alert == IF inf.cd THEN hop.ai ELSE hop.ae
         hop1 == IF ~internal /\ alert
                 THEN (IF inf.cd THEN [hop EXCEPT !.ai = FALSE] ELSE [hop EXCEPT !.ae = FALSE])
@@ -209,7 +225,7 @@ Ingress(p, internal, VH(_, _, _, _, _), VS(_)) ==
     IF final      \* final => si.end (the unreachable!() arm is really unreachable)
     THEN [k |-> IF vcur THEN "ok" ELSE "vfail", cls |-> "ok", act |-> "local", eif |-> 0, iif |-> iif,
           alert |-> alert, p |-> commit(p), calls |-> c1]
-    ELSE IF ~si.end
+    ELSE IF ~si.end \/ pk      \* (reference peering: no crossover at a peer hop field, it leaves by its own egress)
     THEN [k |-> IF vcur THEN "ok" ELSE "vfail", cls |-> "ok", act |-> "egress", eif |-> TravelEg(hop1, inf1),
           iif |-> iif, alert |-> alert, p |-> commit(p), calls |-> c1]
     ELSE  \* segment change; hop h+1 exists because ~final
@@ -236,18 +252,21 @@ Egress(p, VH(_, _, _, _, _)) ==
   ELSE IF si.seg # p.ci THEN ErrRes(p, "segment_mismatch")
   ELSE IF p.ci >= NInf(p.sl) THEN ErrRes(p, "info_oob")
   ELSE IF h + 1 >= tot THEN ErrRes(p, "final_hop")
-  ELSE IF si.end THEN ErrRes(p, "segment_end")
+  ELSE IF si.end /\ ~PeerHere(p, si) THEN ErrRes(p, "segment_end")
+  ELSE IF si.end /\ p.ci + 1 >= NInf(p.sl) THEN ErrRes(p, "info_oob")
   ELSE IF ~PtrFits(h + 1) THEN ErrRes(p, "hop_oob")
   ELSE
-    LET inf == p.inf[p.ci + 1]
+    LET pk == PeerHere(p, si)
+        inf == p.inf[p.ci + 1]
         hop == p.hop[h + 1]
         vcur == VH(h, hop, inf, si.start, si.end)
-        inf1 == IF inf.cd THEN [inf EXCEPT !.sid = XorAcc(@, hop.mac)] ELSE inf
+        inf1 == IF inf.cd /\ ~pk THEN [inf EXCEPT !.sid = XorAcc(@, hop.mac)] ELSE inf
         alert == IF inf.cd THEN hop.ae ELSE hop.ai
         hop1 == IF alert THEN (IF inf.cd THEN [hop EXCEPT !.ae = FALSE] ELSE [hop EXCEPT !.ai = FALSE]) ELSE hop
     IN [k |-> IF vcur THEN "ok" ELSE "vfail", cls |-> "ok", act |-> "egress", eif |-> TravelEg(hop1, inf1),
         iif |-> 0, alert |-> alert,
-        p |-> [p EXCEPT !.inf[p.ci + 1] = inf1, !.hop[h + 1] = hop1, !.ch = (h + 1) % CHMOD],
+        p |-> [p EXCEPT !.inf[p.ci + 1] = inf1, !.hop[h + 1] = hop1, !.ch = (h + 1) % CHMOD,
+                        !.ci = IF si.end THEN p.ci + 1 ELSE p.ci],    \* (si.end only at a reference peer hop field)
         calls |-> <<[f |-> "hop", idx |-> h, sid |-> inf.sid, start |-> si.start, end |-> si.end]>>]
 
 (* ---- P-layer, stated over one call: before-state b, result r ---------------- *)
